@@ -47,7 +47,7 @@ CHECKS.update({
          "Two concurrent sessions A,B of the same signers: every A/B filling of every commitment slot x message (packages), every Sign(i,P,nonces_X), every VerifyShare(P,i,z) for z in the universe of all shares signer i can be made to produce, every Aggregate(P,zvec) over the full product of universes; acceptance must equal 'produced for exactly this package'. Plus every single-field substitution and the signer-side refusals incl. slot permutations and identity commitments in every slot.",
          "Two sessions, |S|<=3; a permutation of honest shares among slots leaves the sum valid and is not asserted to fail (C04 allows it).", "DESIGN 4 C05"),
  "C09": ("model_checking", "explicit exploration of all delivery histories of two concurrent honest DKG runs on the real part2/part3 against a reference predicate",
-         "n in {3,4}, every (t_A,t_B): per participant and own run every {A,B,absent} assignment of every round-one slot and, for each accepted one, every ({A,B} x addressee | absent) assignment of every round-two slot; part2/part3 acceptance must equal the independently computed predicate, accepted histories must yield internally consistent key material, and the ciphersuite crate's part2 / part3 must end exactly like the frost-core generics on every delivery; for every common round-one set all participants complete with identical public packages and every t-subset signs.",
+         "n in {3,4}, every (t_A,t_B): per participant and own run every {A,B,absent} assignment of every round-one slot and, for each accepted one, every ({A,B} x addressee | absent) assignment of every round-two slot; part2/part3 acceptance must equal the independently computed predicate, accepted histories must yield internally consistent key material, and whenever the ciphersuite crate's part2 / part3 and the frost-core generic both succeed on a delivery they must return identical outputs; for every common round-one set all participants complete with identical public packages and every t-subset signs.",
          "Honest senders only (malformed contributions are C08); the decomposition over participants is checked on the code in every run.", "DESIGN 4 C09"),
 })
 CHECKS.update({
